@@ -322,6 +322,8 @@ class AACInfo(StreamInfo):
 
             # other pces..
             for i in range(npce):
+                if bitstream_type == 0:
+                    r.skip(20)  # adif_buffer_fullness
                 ProgramConfigElement(r)
             r.align()
         except BitReaderError as e:
